@@ -269,7 +269,21 @@ func genC18(tier string, run int, r *simcore.Rand) *harness.Plan {
 		nblobs = r.Range(101, 230)
 		maxSize = 100
 	}
+	// one run in 150: more blobs than pkg/client asks for in one enumerate
+	// request (1000), so that its own paging loop runs
+	huge := !many && r.Intn(150) == 0
+	if huge {
+		many = true
+		nblobs = r.Range(1005, 1100)
+		maxSize = 40
+	}
 	cfg.Blobs = sim.GenBlobSpecs(r, nblobs, maxSize)
+	if huge {
+		// distinct contents, so that the store really holds that many
+		for i := range cfg.Blobs {
+			cfg.Blobs[i] = sim.BlobSpec{Size: 8 + i%32, Hash: []string{"sha224", "sha224", "sha1"}[i%3], Kind: "raw", Salt: r.Uint64()}
+		}
+	}
 	// one run in fifty: a batch within the documented limits (every blob well
 	// under 16 MiB, the request under 32 MiB) whose blobs add up to more
 	// than the size limit of a single blob
@@ -301,8 +315,21 @@ func genC18(tier string, run int, r *simcore.Rand) *harness.Plan {
 		ops = append(ops, lp, u)
 	}
 	if many {
-		for len(g.up) < nblobs*3/4 {
+		for len(g.up) < nblobs*3/4 && !huge {
 			ops = append(ops, g.upload())
+		}
+		if huge {
+			// everything, 70 blobs per multipart request
+			for at := 0; at < nblobs; at += 70 {
+				var b []int
+				for i := at; i < at+70 && i < nblobs; i++ {
+					b = append(b, i)
+					g.up[i] = true
+				}
+				ops = append(ops, Op{K: "mp", Root: g.roots[0], B: b})
+			}
+			ops = append(ops, Op{K: "cenum", Root: g.roots[0], Limit: 0, Wait: r.Range(1, 5)}, Op{K: "cenum", Root: g.roots[0], Limit: nblobs + 5})
+			nops = len(ops) + r.Range(2, 6)
 		}
 		ops = append(ops, Op{K: "enum", Root: g.root()}, Op{K: "page", Root: g.root()})
 	}
